@@ -86,7 +86,7 @@ DEFAULTS = dict(
 
 def lr_schedule(t):
   """a traced learning-rate schedule with exactly representable values: 1/8 / (1 + t)"""
-  return 0.125 / (1.0 + t.astype(jnp.float32))
+  return 0.125 / (1.0 + jnp.asarray(t, jnp.float32))
 
 
 def make_opt(cfg, **over):
